@@ -713,6 +713,18 @@ def _scenarios(rng, tier, T):
                     scen.append((f"iso/{s}/swap={int(swap)}/limits={lim}", {"type": "iso", "model": spec, "swap": swap, "limits": limits, "levels": levels,
                                                                            "n_grid": int(rng.integers(15, 45)), "n": int(rng.integers(20, 300)),
                                                                            "sample_seed": int(rng.integers(0, 2**31)), "sample_as": ["ndarray", "list"][int(rng.integers(0, 2))]}))
+    # a variable that takes both signs (own random stream: the scenarios above stay as they were)
+    rng_s = np.random.default_rng(4242)  # seed independent core
+    for swap in (False, True):
+        for lim in ("auto", "given"):
+            spec = random_spec(rng_s, "signed2")
+            limits = None
+            if lim == "given":
+                m, _ = build_model(spec)
+                smp = m.draw_sample(200, random_state=3)
+                limits = [[0.05, float(1.2 * smp[:, 0].max())], [float(smp[:, 1].min() - 1.0), float(smp[:, 1].max() + 1.0)]]
+            scen.append((f"iso/signed2/swap={int(swap)}/limits={lim}", {"type": "iso", "model": spec, "swap": swap, "limits": limits, "levels": None if swap else [1e-4, 1e-3, 1e-2],
+                                                                        "n_grid": 30, "n": 150, "sample_seed": int(rng_s.integers(0, 2**31)), "sample_as": "ndarray"}))
     # --- histograms of interval distributions
     for _ in range(rep):
         for s in ("dnvgl_hs_tz", "omae_hs_tz", "dnvgl_hs_u", "fork3"):
